@@ -61,17 +61,20 @@ class Gen(object):
             self.r.shuffle(hs)
             self.names = hs[:6] + ["1", "2"]
         # Half of the histories use identifiers that are *distinct but confusable*: they differ only in Unicode
-        # normalisation form, only in letter case, only in blanks / non-printable characters / base32 padding, or
-        # one of them is the empty string.  For the server every string is its own identifier; a tree that
+        # normalisation form, only in letter case, only in blanks / non-printable characters / base32 padding,
+        # one of them is the empty string, or they carry characters special to formatting / SQL patterns / paths.  For the server every string is its own identifier; a tree that
         # canonicalises, strips, folds or truth-tests them merges or loses objects.
         self.idclass = "plain"
         if not hostile:
-            self.idclass = {4: "nf", 5: "case", 6: "blank", 7: "empty"}.get(seed % 8, "plain")
+            self.idclass = {5: "nf", 6: "case", 7: "blank", 8: "empty", 9: "format"}.get(seed % 10, "plain")
         self.nfmix = self.idclass == "nf"
         pair = {"nf": lambda x: (x + "\u00e9", x + "e\u0301"),
                 "case": lambda x: (x.lower() + "k", x.upper() + "K"),
-                "blank": lambda x: (x, [x + "\n", " " + x, x + "\x7f", x + "\u200b", x + "="][seed // 8 % 5]),
-                "empty": lambda x: ("", x)}.get(self.idclass)
+                "blank": lambda x: (x, [x + "\n", " " + x, x + "\x7f", x + "\u200b", x + "="][seed // 10 % 5]),
+                "empty": lambda x: ("", x),
+                # characters that mean something to %-formatting, str.format, SQL LIKE/GLOB, shells and paths
+                "format": lambda x: [(x + "%2Fx", x + "%sx"), (x + "{0}", x + "{}"), (x + "%", x + "_"), (x + "'", x + '"'),
+                                     (x + "*", x + "?"), (x + "/..", x + "\\")][seed // 10 % 6]}.get(self.idclass)
         self.mb_base = ["m1", "m2"]
         self.pair = pair
         if pair is not None:
